@@ -245,10 +245,17 @@ def validate(scns, logs, twins=None, *, parallel=10, stats=None, conformance=Tru
                              modules=["Store", "StoreProps"], workers=1, allow_violation=False, timeout=1800, heap="5g"))
     if conformance and stats is not None:
         # per-action counts from a small separate run (coverage instrumentation of a large data module is too costly)
-        few = idx[:: max(1, n // 40)][:40]
+        few, nl = [], 0
+        for i in idx[:: max(1, n // 40)]:
+            if len(few) >= 40 or nl + len(logs[i]) > 350:
+                break
+            few.append(i)
+            nl += len(logs[i])
+        few = few or idx[:1]
         runs.append(dict(main="Store", cfg="INIT Init\nNEXT Next\nINVARIANT ReportAcc\n",
                          data=data_traces([scns[i] for i in few], [logs[i] for i in few]),
-                         modules=["Store", "StoreProps"], workers=1, allow_violation=False, timeout=900, coverage=True))
+                         modules=["Store", "StoreProps"], workers=1, allow_violation=False, timeout=900, coverage=True,
+                         heap="5g"))
     res = tlc.run_many(runs, parallel)
     if conformance and stats is not None:
         rc = res.pop()
